@@ -256,7 +256,7 @@ def ob_state_bounded(steps: List[int], n1: int, n2: int) -> str:
 
 
 @obligation(funcs=["rate_limiter.RateLimiter.cleanup", "rate_limiter.RateLimiter.is_limited"],
-            timeout=(200, 900),
+            timeout=(350, 1200),
             bounds="<=4 arrivals from A (steps 0..70) with cleanup() (some client disconnects) invoked after a symbolic one of "
                    "them, following a symbolic delay 0..70; ip rule (60,n), n in 1..2.  Every decision must be the one the "
                    "admitted history dictates (cleanup may only forget what no rule can count), and an address idle for "
